@@ -86,9 +86,12 @@ static sqf::runtime::runtime::result execute_do(sqf::runtime::runtime& runtime, 
             // Pop the actual frame
             context_active.pop_frame();
 
-            // Readd return value of frame if it had one
+            // Readd return value of frame if it had one; a block that left no value
+            // still yields exactly one value (nil) to the scope that called it
             if (val.has_value())
             { context_active.push_value(val.value()); }
+            else if (!context_active.empty())
+            { context_active.push_value({}); }
 
             // Restart loop-run
             continue;
